@@ -225,3 +225,12 @@ package query
 //@   ensures typeis(q, "*Regexp") && R.FileName == R.Content ==> as(as(result, "*Or").Children[1], "*Regexp").Regexp == R.Regexp && as(as(result, "*Or").Children[1], "*Regexp").CaseSensitive == R.CaseSensitive && !as(as(result, "*Or").Children[1], "*Regexp").FileName && as(as(result, "*Or").Children[1], "*Regexp").Content
 //@   ensures !(typeis(q, "*Substring") && S.FileName == S.Content) && !(typeis(q, "*Regexp") && R.FileName == R.Content) ==> result == q
 //@   assigns nothing
+
+// ---------------------------------------------------------------------------
+// Parser: a literal regexp becomes a substring atom only when it does not fold
+// case (the substring atom has no way to carry the flag). Variant of the
+// (trusted) contract the parser's callers use.
+// ---------------------------------------------------------------------------
+//@ func query.RegexpQuery#literal
+//@   may_panic
+//@   assert at alloc:Substring: (r.Flags & 1) == 0
